@@ -62,11 +62,17 @@ var c11sources = map[string]string{
 	"/global.jet":    `G={{ stable }}`,
 	"/esc.jet":       `{{ "<" + .Tag + ">" }}|{{ "<b>" | raw }}`,
 	// a page including a template that does not parse: every execution, first or not, concurrent or not, fails alike
+	// two libraries defining the same block, a template without blocks of its own importing both, and a page that
+	// uses the first library only: loading the former (whenever that happens) changes nothing for the latter
+	"/liba.jet":       `{{block tag()}}[A]{{end}}`,
+	"/libb.jet":       `{{block tag()}}[B]{{end}}`,
+	"/both.jet":       `{{import "/liba.jet"}}{{import "/libb.jet"}}both:{{yield tag()}}`,
+	"/pagea.jet":      `{{import "/liba.jet"}}a:{{yield tag()}}`,
 	"/badinc.jet":     `x<{{include "/unparsable.jet"}}>`,
 	"/unparsable.jet": `u{{ if }}v`,
 }
 
-var c11stable = []string{"/badinc.jet", "/page.jet", "/page2.jet", "/ranges.jet", "/fields.jet", "/inc.jet", "/try.jet", "/funcs.jet", "/global.jet", "/esc.jet"}
+var c11stable = []string{"/pagea.jet", "/both.jet", "/pagea.jet", "/badinc.jet", "/page.jet", "/page2.jet", "/ranges.jet", "/fields.jet", "/inc.jet", "/try.jet", "/funcs.jet", "/global.jet", "/esc.jet"}
 
 func c11vars() jet.VarMap {
 	ch := make(chan int, 3)
